@@ -28,7 +28,8 @@ RULE = ("placement cases: a node set of 1-8 names (host:port look-alikes such as
         "equivalent server spellings has identical rotation and placement. Cross-process cases: 4 interpreters with "
         "different PYTHONHASHSEED produce the same placement digest as the in-process reference. Non-trivial: >=3 "
         "nodes and (non-identity permutation checked, or history containing a removal, or an actual tie occurred), or "
-        "a spelling/cross-process case. Topology histories: a HashClient over a fake network (five servers: capitals in a host name, shared host, a UNIX socket), events {add_server in one of five spellings, server down (refused / timeout / reset) / up, clock advance, traffic of 12 gets and one get_many}; the same history with every server spelled as the (host, port) tuple must send every key to the same server at every traffic round; only OSError / MemcacheError may escape (nothing with ignore_exc); with all servers up, after two dead_timeouts of traffic placement is the rule over all servers the application added. A second HashClient over two servers of its own lives in the same process and is used before and after every traffic round: its keys go where the rule over ITS servers puts them. The process may fork in the middle of a history: for the same events the child sends every key where the parent sends it. Events also include flush_all broadcasts, and the n-th close() of a socket may be cut short by a KeyboardInterrupt - in the middle of bringing a server back, for instance; the application goes on.")
+        "a spelling/cross-process case. Topology histories: a HashClient over a fake network (five servers: capitals in a host name, shared host, a UNIX socket), events {add_server in one of five spellings, server down (refused / timeout / reset) / up, clock advance, traffic of 12 gets and one get_many}; the same history with every server spelled as the (host, port) tuple must send every key to the same server at every traffic round; only OSError / MemcacheError may escape (nothing with ignore_exc); with all servers up, after two dead_timeouts of traffic placement is the rule over all servers the application added. A second HashClient over two servers of its own lives in the same process and is used before and after every traffic round: its keys go where the rule over ITS servers puts them. The process may fork in the middle of a history: for the same events the child sends every key where the parent sends it. Events also include flush_all broadcasts, and the n-th close() of a socket may be cut short by a KeyboardInterrupt - in the middle of bringing a server back, for instance; the application goes on."
+        + " Keys whose score for a node is 0, 1, 2**32-2 or 2**32-1 (solved for with the reference hash); genuine score ties between two node names (the second name solved for) in every order; nodes that are not strings (ints from 0, '', 0.0, False) with the built-in hash.")
 MANIFEST = {
     "category": "exploration",
     "technique": "Hypothesis-generated node sets, key corpora and add/remove/lookup histories; all insertion permutations enumerated (n<=6); differential against an independent statement of the rendezvous rule; metamorphic relations (permutation, history, removal/addition disruption); cross-process digest comparison",
